@@ -39,6 +39,7 @@ MovAll == 1..NGhosts
 LimSmall == {1, 2, 3}
 LimAll == {1, 2, 3, 1000}
 LimLong == {1000}
+LimTwo == {2}
 PelAll == <<>>
 PelSmall5 == << <<3, 2>>, <<3, 1>>, <<2, 1>>, <<2, 0>>, <<1, 3>> >>
 PelMedium7 == << <<5, 3>>, <<5, 2>>, <<3, 0>>, <<3, 6>>, <<0, 3>>, <<1, 3>> >>
